@@ -55,6 +55,13 @@ func TestVerif_C01_h3seq(t *testing.T) {
 			for j, m := 0, r.Intn(4); j < m; j++ {
 				hdr[verifh.Pick(r, names)] = []string{verifh.Pick(r, values)}
 			}
+			// round 6 — MULTI-LINE fields (see h2seq): a key given as several field lines
+			if r.Intn(3) == 0 {
+				for j, m := 0, 1+r.Intn(2); j < m; j++ {
+					hk := verifh.Pick(r, []string{"Cookie", "Cookie", "Cookie", "cookie", "X-A", "X-B", "x-c", "Accept", "X-D"})
+					hdr[hk] = verifh.C01GenLines(r, hk, values)
+				}
+			}
 			method := verifh.Pick(r, []string{"GET", "POST", "PUT", "DELETE"})
 			rawURL := "https://verif.test" + verifh.Pick(r, []string{"/", "/a", "/a/b?x=1", "/r%2Fs?q=a+b"})
 			host := ""
@@ -144,6 +151,17 @@ func TestVerif_C01_h3seq(t *testing.T) {
 					ok, why = false, fmt.Sprintf("request %d: X-* pair %q differs by %d between what was set and what the server decoded", k, p, -d)
 				}
 			}
+			if lok, lwhy := verifh.C01LinesOracle(hdr, fields); !lok {
+				ok, why = false, fmt.Sprintf("request %d: %s", k, lwhy)
+			}
+			for hk, vs := range hdr {
+				if len(vs) > 1 {
+					count("multi-line")
+					if strings.EqualFold(hk, "cookie") {
+						count("multi-line-cookie")
+					}
+				}
+			}
 			impl = append(impl, verifh.C01ShowFields(fields, nil))
 			count("block-decoded")
 			if refusedBefore {
@@ -153,7 +171,7 @@ func TestVerif_C01_h3seq(t *testing.T) {
 		}
 		s.Case("c01connseq3 - "+strings.Join(line, " "), strings.Join(impl, " ; "), ok, "", nontriv, strings.Join(human, " ")+" "+why)
 	}
-	for _, b := range []string{"block-decoded", "refused", "accepted-after-local-refusal", "kind:big", "kind:badhost"} {
+	for _, b := range []string{"block-decoded", "refused", "accepted-after-local-refusal", "kind:big", "kind:badhost", "multi-line", "multi-line-cookie"} {
 		if hist[b] == 0 {
 			t.Errorf("lane did not reach bucket %q (vacuous pass refused)", b)
 		}
